@@ -528,11 +528,12 @@ class DavSession:
                            [(FOREIGN_TOKENS[self.foreign_i % len(FOREIGN_TOKENS)], "foreign")]:
                 sync.append(self._sync_report(c, path, base_url, tok, tk, members))
             self.foreign_i += 1
+        typed_fallback = self._typed(c)
         gitinfo = self._audit_git(c, members) if self.audit_git else \
             {"bare": False, "log": [], "tree": {}, "clean": True, "fsck": True, "skipped": True,
              "linear": True, "status": "", "cfg": 0}
         return {"kind": kind, "listing": listing, "members": members, "cfg": gitinfo.pop("cfg", 0),
-                "typed": bool(gitinfo.pop("typed", True)), "tagged": True, "tags": tagviews, "props": props, "sync": sync, "hrefs_ok": hrefs_ok,
+                "typed": bool(gitinfo.pop("typed", typed_fallback)), "tagged": True, "tags": tagviews, "props": props, "sync": sync, "hrefs_ok": hrefs_ok,
                 "git": gitinfo}
 
     def _merge_report(self, resp, base_url, members, datatag, which, kind):
@@ -598,6 +599,25 @@ class DavSession:
                 rec["changed"][n] = self.E(et) if et else 0
         rec["removed"].sort()
         return rec
+
+    def _typed(self, c):
+        """Does the collection carry an explicit type (versioned .xandikos or git config)?
+        An untyped collection has its type guessed from its contents by the server."""
+        p = self.world.fspath(SLOTS[c])
+        bare = not os.path.isdir(os.path.join(p, ".git"))
+        try:
+            txt = open(os.path.join(p, "config") if bare else os.path.join(p, ".git", "config"), "rb").read()
+            if b"[xandikos]" in txt and b"type" in txt:
+                return True
+        except OSError:
+            pass
+        if bare:
+            r = git(p, "cat-file", "-p", "HEAD:.xandikos", check=False)
+            return r.returncode == 0 and b"type" in r.stdout
+        try:
+            return b"type" in open(os.path.join(p, ".xandikos"), "rb").read()
+        except OSError:
+            return False
 
     def _repo_fingerprint(self, p):
         fp = []
